@@ -21,6 +21,24 @@ func (ex *Exec) call(fr *Frame, st *State, ci *ssa.Call) *Val {
 	}
 	rt := ci.Type()
 	pos := posOf(fr.fn, ci.Pos())
+	if fr.isRoot && fr.contract != nil && len(fr.contract.CallCounts) > 0 {
+		// call-count ghosts: a trace of the calls this function makes itself (the count is raised before the
+		// call; a callee can only change it by naming the ghost in its modifies clause)
+		nm := calleeName(ci)
+		for _, cc := range fr.contract.CallCounts {
+			if cc.Callee != nm {
+				continue
+			}
+			if _, ok := ex.p.cs.Ghosts[cc.Ghost]; !ok {
+				ex.specErr("counts call " + cc.Callee + " as " + cc.Ghost + ": no such ghost global")
+				continue
+			}
+			loc := Loc{Obj: ex.ghost, Steps: []Step{{Name: "$" + cc.Ghost}}}
+			gt := ex.ghostType(ex.ghost, cc.Ghost)
+			cur := ex.load(st, loc, gt)
+			ex.storeT(st, loc, &Val{K: KScalar, Typ: gt, T: Add(cur.T, BVConst(1, cur.T.Sort.W))}, gt)
+		}
+	}
 	if fr.isRoot && ex.quiet == 0 && fr.contract != nil && len(fr.contract.Asserts) > 0 {
 		name, k := callOrdinal(fr.fn, ci)
 		for _, a := range fr.contract.Asserts {
